@@ -431,6 +431,9 @@ class ProcTable:
         err = self.deny_native.get(name)
         if err:
             raise oserr(err)
+        if pid == 0:
+            # setpriority/getpriority(PRIO_PROCESS, 0), ioprio_*(who=0), sched_*affinity(0), prlimit(0): "the caller"
+            return self.procs[self.self_pid]
         p, tid = self.owner_of(pid)
         if p is None or getattr(p, "half_gone", False):
             raise oserr(errno.ESRCH)
@@ -442,7 +445,7 @@ class ProcTable:
 
     def nat_setpriority(self, vk, pid, value):
         p = self._nat(vk, "setpriority", pid, (value,))
-        vk.events.append(("setpriority", pid, value, p.inc))
+        vk.events.append(("setpriority", pid or p.pid, value, p.inc))
         p.nice = value
 
     def nat_proc_ioprio_get(self, vk, pid):
@@ -451,7 +454,7 @@ class ProcTable:
 
     def nat_proc_ioprio_set(self, vk, pid, ioclass, value):
         p = self._nat(vk, "proc_ioprio_set", pid, (ioclass, value))
-        vk.events.append(("ioprio_set", pid, (int(ioclass), int(value)), p.inc))
+        vk.events.append(("ioprio_set", pid or p.pid, (int(ioclass), int(value)), p.inc))
         p.ioprio = (int(ioclass), int(value))
 
     def nat_proc_cpu_affinity_get(self, vk, pid):
@@ -467,14 +470,14 @@ class ProcTable:
         if getattr(p, "affinity_refused", False):
             # a cpuset / a per-CPU kernel thread (PF_NO_SETAFFINITY): the kernel refuses perfectly valid CPU numbers
             raise oserr(errno.EINVAL)
-        vk.events.append(("affinity_set", pid, tuple(sorted(cpus)), p.inc))
+        vk.events.append(("affinity_set", pid or p.pid, tuple(sorted(cpus)), p.inc))
         p.affinity = sorted(set(ok))
 
     def nat_prlimit(self, vk, pid, res, limits=None):
         p = self._nat(vk, "prlimit", pid, (res, limits))
         old = p.rlimits.get(res, (-1, -1))
         if limits is not None:
-            vk.events.append(("prlimit_set", pid, (res, tuple(limits)), p.inc))
+            vk.events.append(("prlimit_set", pid or p.pid, (res, tuple(limits)), p.inc))
             p.rlimits[res] = tuple(limits)
         return old
 
